@@ -763,13 +763,26 @@ theorem cr_pq_fromVecF (fuse : Nat) (v : Array (Item × P)) :
     MaxQ.fromVecF fuse v = liftR (PQ.MaxQ.fromVec v) ∨ MaxQ.fromVecF fuse v = .error .crashedNew :=
   cr_asNew (cr_pq_heapBuildF fuse (wf_fromVec v))
 
-theorem cr_pq_fromIterF (fuse : Nat) (xs : Array (Item × P)) :
-    MaxQ.fromIterF fuse xs = liftR (PQ.MaxQ.fromIter xs) ∨ MaxQ.fromIterF fuse xs = .error .crashedNew :=
-  cr_asNew (cr_pq_heapBuildF fuse (wf_fromIter xs))
+/-- (an announced lower bound `≥ capLimit` is the capacity panic of the plain `fromIter`, before any comparison) -/
+theorem cr_pq_fromIterF (fuse : Nat) (lo : Nat) (xs : Array (Item × P)) :
+    MaxQ.fromIterF fuse lo xs = liftR (PQ.MaxQ.fromIter lo xs) ∨ MaxQ.fromIterF fuse lo xs = .error .crashedNew := by
+  unfold MaxQ.fromIterF
+  rcases reserveC_cases lo with ⟨hlo, hr⟩ | ⟨hlo, hr⟩
+  · rw [PQ.MaxQ.fromIter_of_lt xs hlo, hr]
+    exact cr_asNew (cr_pq_heapBuildF fuse (wf_fromIter xs))
+  · rw [PQ.MaxQ.fromIter_of_ge xs hlo, hr]
+    exact .inl rfl
 
-theorem cr_pq_deserializeF (fuse : Nat) (xs : Array (Item × P)) :
-    MaxQ.deserializeF fuse xs = liftR (PQ.MaxQ.deserialize xs) ∨ MaxQ.deserializeF fuse xs = .error .crashedNew :=
-  cr_asNew (cr_pq_heapBuildF fuse (wf_visitSeq xs))
+theorem cr_pq_deserializeF (fuse : Nat) (hint : Option Nat) (xs : Array (Item × P)) :
+    MaxQ.deserializeF fuse hint xs = liftR (PQ.MaxQ.deserialize hint xs) ∨
+      MaxQ.deserializeF fuse hint xs = .error .crashedNew := by
+  have h0 : MaxQ.deserializeF fuse hint xs = asNew (MaxQ.heapBuildF fuse (Store.visitSeq xs)) := by
+    unfold MaxQ.deserializeF
+    cases hint with
+    | none => rfl
+    | some h => simp only [reserveC_min_4096]; rfl
+  rw [h0, PQ.MaxQ.deserialize_eq]
+  exact cr_asNew (cr_pq_heapBuildF fuse (wf_visitSeq xs))
 
 /-- **`pushAllF`**: the `j`-th push crashes ⇒ the store after `j - 1` pushes with the crashed `j`-th push as per `pushF` -/
 theorem cr_pq_pushAllF (fuse : Nat) : ∀ (l : List (Item × P)) {s : Store P}, s.WF →
@@ -790,6 +803,7 @@ theorem cr_pq_pushAllF (fuse : Nat) : ∀ (l : List (Item × P)) {s : Store P}, 
 theorem cr_pq_extendF (fuse : Nat) {s : Store P} (h : s.WF) (lo : Nat) (xs : Array (Item × P)) :
     CrOut (MaxQ.extendF fuse s lo xs) (PQ.MaxQ.extend s lo xs) (fun s' => s'.WF) := by
   unfold MaxQ.extendF PQ.MaxQ.extend
+  refine cr_bind_lift (fun _ _ => ?_)
   dsimp only
   cases (if lo ≠ 0 then betterToRebuild s.size lo else false) with
   | true =>
@@ -1553,13 +1567,26 @@ theorem cr_dq_fromVecF (fuse : Nat) (v : Array (Item × P)) :
     DQ.fromVecF fuse v = liftR (PQ.DQ.fromVec v) ∨ DQ.fromVecF fuse v = .error .crashedNew :=
   cr_asNew (cr_dq_heapBuildF fuse (wf_fromVec v))
 
-theorem cr_dq_fromIterF (fuse : Nat) (xs : Array (Item × P)) :
-    DQ.fromIterF fuse xs = liftR (PQ.DQ.fromIter xs) ∨ DQ.fromIterF fuse xs = .error .crashedNew :=
-  cr_asNew (cr_dq_heapBuildF fuse (wf_fromIter xs))
+/-- (an announced lower bound `≥ capLimit` is the capacity panic of the plain `fromIter`, before any comparison) -/
+theorem cr_dq_fromIterF (fuse : Nat) (lo : Nat) (xs : Array (Item × P)) :
+    DQ.fromIterF fuse lo xs = liftR (PQ.DQ.fromIter lo xs) ∨ DQ.fromIterF fuse lo xs = .error .crashedNew := by
+  unfold DQ.fromIterF
+  rcases reserveC_cases lo with ⟨hlo, hr⟩ | ⟨hlo, hr⟩
+  · rw [PQ.DQ.fromIter_of_lt xs hlo, hr]
+    exact cr_asNew (cr_dq_heapBuildF fuse (wf_fromIter xs))
+  · rw [PQ.DQ.fromIter_of_ge xs hlo, hr]
+    exact .inl rfl
 
-theorem cr_dq_deserializeF (fuse : Nat) (xs : Array (Item × P)) :
-    DQ.deserializeF fuse xs = liftR (PQ.DQ.deserialize xs) ∨ DQ.deserializeF fuse xs = .error .crashedNew :=
-  cr_asNew (cr_dq_heapBuildF fuse (wf_visitSeq xs))
+theorem cr_dq_deserializeF (fuse : Nat) (hint : Option Nat) (xs : Array (Item × P)) :
+    DQ.deserializeF fuse hint xs = liftR (PQ.DQ.deserialize hint xs) ∨
+      DQ.deserializeF fuse hint xs = .error .crashedNew := by
+  have h0 : DQ.deserializeF fuse hint xs = asNew (DQ.heapBuildF fuse (Store.visitSeq xs)) := by
+    unfold DQ.deserializeF
+    cases hint with
+    | none => rfl
+    | some h => simp only [reserveC_min_4096]; rfl
+  rw [h0, PQ.DQ.deserialize_eq]
+  exact cr_asNew (cr_dq_heapBuildF fuse (wf_visitSeq xs))
 
 /-- **`DQ.pushAllF`** -/
 theorem cr_dq_pushAllF (fuse : Nat) : ∀ (l : List (Item × P)) {s : Store P}, s.WF →
@@ -1580,6 +1607,7 @@ theorem cr_dq_pushAllF (fuse : Nat) : ∀ (l : List (Item × P)) {s : Store P}, 
 theorem cr_dq_extendF (fuse : Nat) {s : Store P} (h : s.WF) (lo : Nat) (xs : Array (Item × P)) :
     CrOut (DQ.extendF fuse s lo xs) (PQ.DQ.extend s lo xs) (fun s' => s'.WF) := by
   unfold DQ.extendF PQ.DQ.extend
+  refine cr_bind_lift (fun _ _ => ?_)
   dsimp only
   cases (if lo ≠ 0 then betterToRebuild s.size lo else false) with
   | true =>
@@ -1748,22 +1776,23 @@ theorem cr_stepF_out (fuse : Nat) {q : Q P} {op : Op P} (hq : QWF q) (hl : op.Le
     cases k
     · exact cr_stepOut_of (cr_liftQ_bind .pq (cr_pq_extendF fuse h lo xs) (fun _ => rfl)) (fun _ hs => hs)
     · exact cr_stepOut_of (cr_liftQ_bind .dpq (cr_dq_extendF fuse h lo xs) (fun _ => rfl)) (fun _ hs => hs)
-  | append xs =>
+  | append o =>
+    have ho : o.WF := hl
     cases k
-    · exact cr_stepOut_of (cr_liftQ_bind .pq (cr_pq_appendF fuse h (wf_fromVec xs)) (fun _ => rfl)) (fun _ hs => hs.1)
-    · exact cr_stepOut_of (cr_liftQ_bind .dpq (cr_dq_appendF fuse h (wf_fromVec xs)) (fun _ => rfl)) (fun _ hs => hs.1)
+    · exact cr_stepOut_of (cr_liftQ_bind .pq (cr_pq_appendF fuse h ho) (fun _ => rfl)) (fun _ hs => hs.1)
+    · exact cr_stepOut_of (cr_liftQ_bind .dpq (cr_dq_appendF fuse h ho) (fun _ => rfl)) (fun _ hs => hs.1)
   | fromVec xs =>
     cases k
     · exact cr_stepOut_of_new (cr_liftQ_bind_new .pq (cr_pq_fromVecF fuse xs) (fun _ => rfl))
     · exact cr_stepOut_of_new (cr_liftQ_bind_new .dpq (cr_dq_fromVecF fuse xs) (fun _ => rfl))
-  | fromIter xs =>
+  | fromIter lo xs =>
     cases k
-    · exact cr_stepOut_of_new (cr_liftQ_bind_new .pq (cr_pq_fromIterF fuse xs) (fun _ => rfl))
-    · exact cr_stepOut_of_new (cr_liftQ_bind_new .dpq (cr_dq_fromIterF fuse xs) (fun _ => rfl))
-  | deserialize xs =>
+    · exact cr_stepOut_of_new (cr_liftQ_bind_new .pq (cr_pq_fromIterF fuse lo xs) (fun _ => rfl))
+    · exact cr_stepOut_of_new (cr_liftQ_bind_new .dpq (cr_dq_fromIterF fuse lo xs) (fun _ => rfl))
+  | deserialize hint xs =>
     cases k
-    · exact cr_stepOut_of_new (cr_liftQ_bind_new .pq (cr_pq_deserializeF fuse xs) (fun _ => rfl))
-    · exact cr_stepOut_of_new (cr_liftQ_bind_new .dpq (cr_dq_deserializeF fuse xs) (fun _ => rfl))
+    · exact cr_stepOut_of_new (cr_liftQ_bind_new .pq (cr_pq_deserializeF fuse hint xs) (fun _ => rfl))
+    · exact cr_stepOut_of_new (cr_liftQ_bind_new .dpq (cr_dq_deserializeF fuse hint xs) (fun _ => rfl))
   | convert =>
     cases k
     · exact cr_stepOut_of (cr_liftQ_bind .dpq (cr_dq_ofStoreF fuse h) (fun _ => rfl)) (fun _ hs => hs.1)
@@ -2094,11 +2123,14 @@ theorem cr_er_pq_ofStoreF (s : Store P) : MaxQ.ofStoreF 0 s = liftR (PQ.MaxQ.ofS
 theorem cr_er_pq_fromVecF (v : Array (Item × P)) : MaxQ.fromVecF 0 v = liftR (PQ.MaxQ.fromVec v) := by
   simp only [MaxQ.fromVecF, PQ.MaxQ.fromVec, cr_er_pq_heapBuildF, cr_er_asNew]
 
-theorem cr_er_pq_fromIterF (xs : Array (Item × P)) : MaxQ.fromIterF 0 xs = liftR (PQ.MaxQ.fromIter xs) := by
-  simp only [MaxQ.fromIterF, PQ.MaxQ.fromIter, cr_er_pq_heapBuildF, cr_er_asNew]
+theorem cr_er_pq_fromIterF (lo : Nat) (xs : Array (Item × P)) :
+    MaxQ.fromIterF 0 lo xs = liftR (PQ.MaxQ.fromIter lo xs) := by
+  simp only [MaxQ.fromIterF, PQ.MaxQ.fromIter, cr_er_pq_heapBuildF, cr_er_asNew, liftR_bind]
 
-theorem cr_er_pq_deserializeF (xs : Array (Item × P)) : MaxQ.deserializeF 0 xs = liftR (PQ.MaxQ.deserialize xs) := by
-  simp only [MaxQ.deserializeF, PQ.MaxQ.deserialize, cr_er_pq_heapBuildF, cr_er_asNew]
+theorem cr_er_pq_deserializeF (hint : Option Nat) (xs : Array (Item × P)) :
+    MaxQ.deserializeF 0 hint xs = liftR (PQ.MaxQ.deserialize hint xs) := by
+  cases hint <;>
+    simp only [MaxQ.deserializeF, PQ.MaxQ.deserialize, cr_er_pq_heapBuildF, cr_er_asNew, liftR_bind, reserveC_min_4096] <;> rfl
 
 theorem cr_er_pq_pushAllF : ∀ (l : List (Item × P)) (s : Store P),
     MaxQ.pushAllF 0 l s = liftR (PQ.MaxQ.pushAll l s) := by
@@ -2111,7 +2143,7 @@ theorem cr_er_pq_pushAllF : ∀ (l : List (Item × P)) (s : Store P),
 
 theorem cr_er_pq_extendF (s : Store P) (lo : Nat) (xs : Array (Item × P)) :
     MaxQ.extendF 0 s lo xs = liftR (PQ.MaxQ.extend s lo xs) := by
-  simp only [MaxQ.extendF, PQ.MaxQ.extend, cr_er_pq_heapBuildF, cr_er_pq_pushAllF, cr_er_ite]
+  simp only [MaxQ.extendF, PQ.MaxQ.extend, cr_er_pq_heapBuildF, cr_er_pq_pushAllF, cr_er_ite, liftR_bind]
 
 theorem cr_er_pq_iterMutDropF (s : Store P) (prog : List (ICall × IMWrite P)) :
     MaxQ.iterMutDropF 0 s prog =
@@ -2398,11 +2430,14 @@ theorem cr_er_dq_ofStoreF (s : Store P) : DQ.ofStoreF 0 s = liftR (PQ.DQ.ofStore
 theorem cr_er_dq_fromVecF (v : Array (Item × P)) : DQ.fromVecF 0 v = liftR (PQ.DQ.fromVec v) := by
   simp only [DQ.fromVecF, PQ.DQ.fromVec, cr_er_dq_heapBuildF, cr_er_asNew]
 
-theorem cr_er_dq_fromIterF (xs : Array (Item × P)) : DQ.fromIterF 0 xs = liftR (PQ.DQ.fromIter xs) := by
-  simp only [DQ.fromIterF, PQ.DQ.fromIter, cr_er_dq_heapBuildF, cr_er_asNew]
+theorem cr_er_dq_fromIterF (lo : Nat) (xs : Array (Item × P)) :
+    DQ.fromIterF 0 lo xs = liftR (PQ.DQ.fromIter lo xs) := by
+  simp only [DQ.fromIterF, PQ.DQ.fromIter, cr_er_dq_heapBuildF, cr_er_asNew, liftR_bind]
 
-theorem cr_er_dq_deserializeF (xs : Array (Item × P)) : DQ.deserializeF 0 xs = liftR (PQ.DQ.deserialize xs) := by
-  simp only [DQ.deserializeF, PQ.DQ.deserialize, cr_er_dq_heapBuildF, cr_er_asNew]
+theorem cr_er_dq_deserializeF (hint : Option Nat) (xs : Array (Item × P)) :
+    DQ.deserializeF 0 hint xs = liftR (PQ.DQ.deserialize hint xs) := by
+  cases hint <;>
+    simp only [DQ.deserializeF, PQ.DQ.deserialize, cr_er_dq_heapBuildF, cr_er_asNew, liftR_bind, reserveC_min_4096] <;> rfl
 
 theorem cr_er_dq_pushAllF : ∀ (l : List (Item × P)) (s : Store P),
     DQ.pushAllF 0 l s = liftR (PQ.DQ.pushAll l s) := by
@@ -2415,7 +2450,7 @@ theorem cr_er_dq_pushAllF : ∀ (l : List (Item × P)) (s : Store P),
 
 theorem cr_er_dq_extendF (s : Store P) (lo : Nat) (xs : Array (Item × P)) :
     DQ.extendF 0 s lo xs = liftR (PQ.DQ.extend s lo xs) := by
-  simp only [DQ.extendF, PQ.DQ.extend, cr_er_dq_heapBuildF, cr_er_dq_pushAllF, cr_er_ite]
+  simp only [DQ.extendF, PQ.DQ.extend, cr_er_dq_heapBuildF, cr_er_dq_pushAllF, cr_er_ite, liftR_bind]
 
 theorem cr_er_dq_iterMutDropF (s : Store P) (prog : List (ICall × IMWrite P)) :
     DQ.iterMutDropF 0 s prog =
@@ -2507,7 +2542,7 @@ theorem cr_stepF_zero (q : Q P) (op : Op P) : stepF 0 q op = liftQ q.kind (liftR
     cases k
     · exact cr_er_step .pq (cr_er_pq_extendF s lo xs) (fun _ => rfl)
     · exact cr_er_step .dpq (cr_er_dq_extendF s lo xs) (fun _ => rfl)
-  | append xs =>
+  | append o =>
     cases k
     · exact cr_er_step .pq (cr_er_pq_appendF s _) (fun _ => rfl)
     · exact cr_er_step .dpq (cr_er_dq_appendF s _) (fun _ => rfl)
@@ -2515,14 +2550,14 @@ theorem cr_stepF_zero (q : Q P) (op : Op P) : stepF 0 q op = liftQ q.kind (liftR
     cases k
     · exact cr_er_step .pq (cr_er_pq_fromVecF xs) (fun _ => rfl)
     · exact cr_er_step .dpq (cr_er_dq_fromVecF xs) (fun _ => rfl)
-  | fromIter xs =>
+  | fromIter lo xs =>
     cases k
-    · exact cr_er_step .pq (cr_er_pq_fromIterF xs) (fun _ => rfl)
-    · exact cr_er_step .dpq (cr_er_dq_fromIterF xs) (fun _ => rfl)
-  | deserialize xs =>
+    · exact cr_er_step .pq (cr_er_pq_fromIterF lo xs) (fun _ => rfl)
+    · exact cr_er_step .dpq (cr_er_dq_fromIterF lo xs) (fun _ => rfl)
+  | deserialize hint xs =>
     cases k
-    · exact cr_er_step .pq (cr_er_pq_deserializeF xs) (fun _ => rfl)
-    · exact cr_er_step .dpq (cr_er_dq_deserializeF xs) (fun _ => rfl)
+    · exact cr_er_step .pq (cr_er_pq_deserializeF hint xs) (fun _ => rfl)
+    · exact cr_er_step .dpq (cr_er_dq_deserializeF hint xs) (fun _ => rfl)
   | convert =>
     cases k
     · have h := cr_er_step (β := Q P × Out P) .dpq (cr_er_dq_ofStoreF s)
